@@ -285,6 +285,7 @@ AckSound == \A e \in E : \A h \in DOMAIN st.hnd[e] : st.hnd[e][h].ackSent <= st.
 QueueBound == \A e \in E : \A h \in DOMAIN st.hnd[e] : Len(st.hnd[e][h].inq) <= st.cfg[e].rwnd
 InitialCredit ==
   st.healthy => \A e \in E : \A h \in DOMAIN st.hnd[e] : st.hnd[e][h].adv = st.cfg[Peer(e)].rwnd
+NoOrphanWriter == NoOrphanWriterS(st)
 DoneResolved ==
   \A e \in E : st.task[e].ph = "done" =>
      /\ \A c \in DOMAIN st.calls[e] : st.calls[e][c].resp # "pending"
